@@ -15,7 +15,7 @@ def jobs(tier):
     q = tier == "quick"
     out = []
     F = ["AbstractGate.call", "Parameter.validate", "GateStatement.__eq__"]
-    sigs = [()] + [(a,) for a in range(5)] + [(a, b) for a in range(5) for b in range(5)]
+    sigs = [()] + [(a,) for a in range(5)] + ([(0, 2), (2, 3), (1, 4), (3, 0), (4, 1), (2, 2)] if q else [(a, b) for a in range(5) for b in range(5)])
     if not q:
         sigs += [(a, b, c) for a in range(5) for b in (0, 2, 4) for c in (1, 3, 4)]
     for sig in sigs:
@@ -23,7 +23,7 @@ def jobs(tier):
         out.append(CH(name="c18_call_" + ("".join(map(str, sig)) or "none"), base="c18_call", func=f"{H}:c18_call",
                       params=[("nargs", "int"), ("s0", "int"), ("s1", "int"), ("s2", "int"), ("v", "int"), ("x", "float")],
                       pre=["0 <= nargs <= 3", f"0 <= s0 < {NSEL}", f"0 <= s1 < {NSEL}", f"0 <= s2 < {NSEL}", "-2 <= v <= 9", "x == x", "x - x == 0.0",
-                           f"s2 == 0 or nargs == 3", f"s1 == 0 or nargs >= 2", f"s0 == 0 or nargs >= 1"],
+                           f"s2 == 0 or nargs == 3", f"s1 == 0 or nargs >= 2", f"s0 == 0 or nargs >= 1"] + (["s2 == 0"] if q else []),
                       fixed={"k0": k[0], "k1": k[1], "k2": k[2], "nparams": len(sig)}, timeout=600 if q else 2400, functions=F,
                       note="accepted <=> arity matches and every argument fits its parameter kind; positional and keyword calls agree and give equal statements"))
     for w in range(4):
